@@ -11,7 +11,7 @@ import time
 from . import build, impl, model, sexp, slevel
 
 BASE = calendar.timegm((2023, 11, 14, 0, 0, 0))
-NAMES = ["a", "b", "c.txt", "sp ace", "ü-ñ", "x" * 40, "d1", "d2", "e.o", ".hid", "n" * 200]
+NAMES = ["a", "b", "c.txt", "sp ace", "ü-ñ", "x" * 40, "d1", "d2", "e.o", ".hid", "n" * 200, "trail ", "tab\t", " lead", "two  spaces "]
 SIZES = [0, 0, 1, 3, 100, 4095, 4096, 4097, 9000, 511, 512, 513, 8191, 8192, 8193, 10240]   # tar blocks (512), pipe / copy buffers (8 KiB), the restorer's 4096 threshold (128 KiB zstd blocks: the many-small-files scenario of C01)
 MODES = [0o644, 0o600, 0o755, 0o640, 0o4755, 0o000, 0o1777, 0o444]
 OWNERS = [(0, 0), (1000, 1000), (12345, 54321), (0, 7)]
